@@ -90,6 +90,7 @@ fn check_waker_balance(env: &mut Env, end_of_run: bool) {
 
 pub fn generic_gen_run<W: World>(cfg: &Cfg, rng: &mut Rng, env: &mut Env) -> Vec<Op> {
     let len = cfg_get(cfg, "len", 32) as usize;
+    env.waker_enc = cfg_get(cfg, "waker_enc", 0) as u8;
     let mut w = W::new(cfg, env);
     let mut ops = Vec::with_capacity(len + 16);
     for _ in 0..len {
@@ -131,6 +132,7 @@ pub fn generic_gen_run<W: World>(cfg: &Cfg, rng: &mut Rng, env: &mut Env) -> Vec
 }
 
 pub fn generic_replay<W: World>(cfg: &Cfg, ops: &[Op], env: &mut Env) {
+    env.waker_enc = cfg_get(cfg, "waker_enc", 0) as u8;
     let mut w = W::new(cfg, env);
     for (i, op) in ops.iter().enumerate() {
         step(&mut w, i, *op, env);
@@ -350,6 +352,8 @@ const STATE_CAP: usize = 1_500_000;
 pub fn draw_run_cfg(def: &WorldDef, seed: u64, run: u64, over: &Cfg) -> (Cfg, Rng) {
     let mut rng = Rng::for_run(seed, def.name, run);
     let mut cfg = (def.draw_cfg)(&mut rng);
+    // how a future's wakers A and B differ: in the data pointer, or only in the vtable
+    cfg.insert("waker_enc".into(), rng.pct(35) as i64);
     for (k, v) in over {
         cfg.insert(k.clone(), *v);
     }
